@@ -1,10 +1,11 @@
 (** C05 (and the invariants C01 / C04 / C07 rest on) with the LOCAL validator's own actions: the state
     machine's proposed header, prevote and precommit reach the mirror through kernel.go
     handleStateMachineAction ([MAct] of Model/MirrorMgr.v: [act_vote], [act_ph]), not through the Handle*
-    methods.  Statements only; proofs in Proofs/MirrorAct.v and Proofs/MirrorActInv.v. *)
+    methods.  Statements only; proofs in Proofs/MirrorAct.v, Proofs/MirrorActInv.v and Proofs/MirrorActTotal.v. *)
 From Coq Require Import List NArith.
 From GV Require Import Base.Ints Gen.Math Gen.Kernel Model.Mirror Model.MirrorMgr
-  Proofs.MirrorAuth Proofs.MirrorChain Proofs.MirrorCert Proofs.MirrorAct Proofs.MirrorActInv.
+  Proofs.MirrorAuth Proofs.MirrorChain Proofs.MirrorCert Proofs.MirrorTotal Proofs.MirrorAct Proofs.MirrorActInv
+  Proofs.MirrorActTotal.
 Import ListNotations.
 Local Open Scope N_scope.
 
@@ -110,3 +111,40 @@ Theorem C05Act_local_ph_keeps_chain_invariant_refuted :
                         In p (v_phs (k_vot s')) /\ hd_ok (ph_hdr p) = false /\ ~ cinv ih ivs s'.
 Proof. exact cinv_local_ph_refuted. Qed.
 Print Assumptions C05Act_local_ph_keeps_chain_invariant_refuted.
+
+(** ** C09 for local actions: where handleStateMachineAction can panic, exactly *)
+
+(** In any kernel state whose power totals are in range ([aok], an invariant of every state reached through
+    admissible inputs: Proofs/MirrorTotal.v) a local vote - ANY signature bytes, any target, any key, timely or
+    late - is handled without a panic unless the guard holds: the entered round is the voting or committing view
+    AND (the state machine named no key, OR the view has no proof for the target yet and its validator set lists
+    no keys).  The result keeps the totality invariant. *)
+Theorem C09Act_local_vote_never_panics_outside_guard : forall kind s h r key target sg,
+  aok s -> act_vote_panic_guard kind s h r key target = false ->
+  exists s', act_vote kind s h r key target sg = Ok s' /\ (pok s -> tinv s').
+Proof. exact local_vote_total. Qed.
+Print Assumptions C09Act_local_vote_never_panics_outside_guard.
+
+(** the guard is exact *)
+Theorem C09Act_local_vote_panics_under_guard : forall kind s h r key target sg,
+  act_vote_panic_guard kind s h r key target = true ->
+  exists site, act_vote kind s h r key target sg = Panic site.
+Proof. exact local_vote_panics_under_guard. Qed.
+Print Assumptions C09Act_local_vote_panics_under_guard.
+
+(** a state machine WITH a key never panics the kernel by voting when the voting and the committing view list
+    at least one validator key (false only for the empty committing view before the first commit, which a state
+    machine reaches by entering height 0, and for a validator set without keys) *)
+Theorem C09Act_local_vote_with_key_never_panics : forall kind s h r k target sg,
+  aok s -> vs_keys (v_vals (k_vot s)) <> [] -> vs_keys (v_vals (k_com s)) <> [] ->
+  exists s', act_vote kind s h r (Some k) target sg = Ok s' /\ (pok s -> tinv s').
+Proof. exact local_vote_total_with_keys. Qed.
+Print Assumptions C09Act_local_vote_with_key_never_panics.
+
+(** the state machine's own proposed header (an action is present: non-empty hash) never panics the kernel *)
+Theorem C09Act_local_ph_never_panics : forall s p,
+  tinv s -> hd_hash (ph_hdr p) <> [] ->
+  exists s', act_ph s p = Ok s' /\
+    (pow_ok (hd_next (ph_hdr p)) -> (pow_ok (hd_vals (ph_hdr p)) \/ hd_height (ph_hdr p) <> v_h (k_vot s)) -> tinv s').
+Proof. exact local_ph_total. Qed.
+Print Assumptions C09Act_local_ph_never_panics.
